@@ -7,11 +7,12 @@ use crate::scenario::*;
 use crate::schemes::*;
 use crate::seams::*;
 use crate::session::*;
-use ark_poly_commit::{LabeledCommitment, LabeledPolynomial, PCCommitterKey, PolynomialCommitment};
+use ark_ff::{One, UniformRand, Zero as _};
+use ark_poly_commit::{Evaluations, LabeledCommitment, LabeledPolynomial, PCCommitterKey, PolynomialCommitment, QuerySet};
 use ark_serialize::CanonicalDeserialize;
 use ark_std::rand::Rng;
 
-pub const VERIFIER_KINDS: &[&str] = &["prover-other-trim", "bound-mislabelled", "bound-mislabelled-unenforced", "bound-mislabelled-both", "bound-label-dropped", "shifted-dropped", "shifted-swapped", "shifted-exchanged", "shifted-identity", "unbounded-gets-label-identity-shift", "shifted-other-bound", "unbounded-gets-label"];
+pub const VERIFIER_KINDS: &[&str] = &["prover-other-trim", "bound-mislabelled", "bound-mislabelled-unenforced", "bound-mislabelled-both", "bound-label-dropped", "shifted-dropped", "shifted-swapped", "shifted-exchanged", "shifted-identity", "unbounded-gets-label-identity-shift", "surplus-shifted-substitution", "shifted-other-bound", "unbounded-gets-label"];
 pub const PROVER_KINDS: &[&str] = &["commit-degree-exceeds-bound", "commit-bound-not-enforced", "commit-no-bounds-in-key", "commit-degree-exceeds-supported", "commit-bound-above-supported", "open-degree-exceeds-bound", "open-bound-not-enforced"];
 
 pub fn generate(run_seed: u64) -> Scenario {
@@ -224,6 +225,51 @@ pub fn run<S: Scheme>(scn: &Scenario, log: &EventLog) -> RunResult {
                     let pool: Vec<usize> = if f.param % 2 == 0 { all_bounds.clone() } else { (1..=cfg.max_degree).collect() };
                     if pool.is_empty() { None } else {
                         S::comm_with_identity_shift(mine.commitment()).map(|c| relabel::<S>(&mine, c, Some(pool[(f.param as usize / 2) % pool.len()])))
+                    }
+                }
+                ("surplus-shifted-substitution", None) => {
+                    // An unbounded commitment that carries a degree-bound part nobody asked for. In a
+                    // verifier that flattens (plain, shifted?) parts into one list and reads the list back
+                    // by *label* bounds, the surplus element takes the place of the next equation's
+                    // commitment: two equations lc_p := p, lc_q := q, the surplus part of p is a
+                    // commitment to q' = q + d, the byzantine prover opens (p, q') honestly.
+                    use ark_poly_commit::{LCTerm, LinearCombination};
+                    let others: Vec<usize> = (0..scn.polys.len()).filter(|&q| q != p && scn.polys[q].degree_bound.is_none()).collect();
+                    if others.is_empty() || !matches!(op, Op::Open { .. }) { None } else {
+                        let q = others[f.aux % others.len()];
+                        let (ql, pl) = (scn.polys[q].label.clone(), label.clone());
+                        let d: S::F = loop { let x = S::F::rand(&mut stream(scn.seed, "c04-surplus", f.param)); if !x.is_zero() { break x; } };
+                        let qf = LabeledPolynomial::new(ql.clone(), sess.prover.polys[q].polynomial().add_const(d), None, scn.polys[q].hiding);
+                        let ck = &sess.prover.ck;
+                        match step(|| PcOf::<S>::commit(ck, [&qf], Some(&mut rng))) {
+                            Outcome::Ok((mut cf, mut sf)) if cf.len() == 1 => {
+                                let (cf, sf) = (cf.pop().unwrap(), sf.pop().unwrap());
+                                let z = sess.points[0].clone();
+                                let zl = scn.points[0].label.clone();
+                                let lcs = vec![
+                                    LinearCombination::<S::F>::new("lc_p", vec![(S::F::one(), LCTerm::from(pl.clone()))]),
+                                    LinearCombination::<S::F>::new("lc_q", vec![(S::F::one(), LCTerm::from(ql.clone()))]),
+                                ];
+                                let mut qs: QuerySet<S::Pt> = QuerySet::new();
+                                qs.insert(("lc_p".to_string(), (zl.clone(), z.clone())));
+                                qs.insert(("lc_q".to_string(), (zl, z.clone())));
+                                let mut evals: Evaluations<S::Pt, S::F> = Evaluations::new();
+                                evals.insert(("lc_p".to_string(), z.clone()), sess.prover.polys[p].polynomial().eval_ref(&z));
+                                evals.insert(("lc_q".to_string(), z.clone()), qf.polynomial().eval_ref(&z));
+                                let mut sp = sess.verifier.sponge.fork();
+                                let polys2 = [&sess.prover.polys[p], &qf];
+                                let comms2 = [&sess.prover.comms[p], &cf];
+                                let states2 = [&sess.prover.states[p], &sf];
+                                match step(|| PcOf::<S>::open_combinations(ck, lcs.iter(), polys2, comms2, &qs, &mut sp, states2, Some(&mut rng))) {
+                                    Outcome::Ok(proof) => match S::comm_with_surplus_shift(mine.commitment(), cf.commitment()) {
+                                        Some(c) => { bad_claim = Some(Claim::Lc { lcs, qs, evals, proof }); Some(relabel::<S>(&mine, c, None)) }
+                                        None => None,
+                                    },
+                                    o => { res.stats.probe(&format!("byzantine-prover-{}", o.kind())); None }
+                                }
+                            }
+                            _ => None,
+                        }
                     }
                 }
                 ("shifted-other-bound", Some(dp)) => {
